@@ -162,6 +162,19 @@ func (r *InboundRequestSingleFlight) FinishErr(req *InflightRequest, err error) 
 	close(req.Done)
 }
 
+// FinishPanicked finishes the request of a leader that left by a panic. Like the error of a leader
+// whose own context ended, the failure is the leader's alone: followers try again on their own.
+func (r *InboundRequestSingleFlight) FinishPanicked(req *InflightRequest, err error) {
+	if req == nil {
+		return
+	}
+	shard := r.shardFor(req.ID)
+	shard.m.Delete(req.ID)
+	req.Err = err
+	req.leaderGone = true
+	close(req.Done)
+}
+
 func (r *InboundRequestSingleFlight) shardFor(key uint64) *requestShard {
 	// Fast modulo using power-of-two shard count if desired in the future.
 	// For now, use standard modulo for clarity.
